@@ -8,6 +8,7 @@ of every constructor / assignment / emplace / reset / destructor instantiation (
                     destructor has just run (directly or through reset()).
   C40.dtor          the destructor destroys the contained object on every path on which ptr_ is non-null.
 Abstract state per object: E (may hold a live T) / D (known empty or destroyed), explored exhaustively.
+  C40.self-assign   both assignment operators end the life of the held object only under `&oth != this`.
 """
 from lib import dataflow
 from lib.facts import Pos, const_val, expr_str, normalize_cond, strip_casts, strip_move, subexprs
@@ -119,3 +120,46 @@ def run(R):
         path = fn.path_to_exit_avoiding(Pos(fn.entry, -1), destroys, removed_edges=removed)
         R.ob("C40.dtor", fn, fn.loc, path is None and bool(removed), "destroys the contained object whenever ptr_ is non-null" if path is None else "an engaged OpResult can be destroyed without destroying its object", sitekey="dtor", why=WHY)
     R.need("C40.dtor", nd, 1, "OpResult destructor")
+    self_assign_rule(R)
+
+
+def self_assign_rule(R):
+    """C40.self-assign: in both assignment operators everything that ends the life of the object held by
+    *this (its destructor, emplace(), reset()) happens only after `&oth != this` was established:
+    `x = x` on an engaged OpResult must leave the value alone (std::optional semantics); without the
+    guard the value is destroyed and then re-created from its own dead storage."""
+    F = R.F
+    n = 0
+    for fn in F.functions(qname="dispenso::detail::OpResult::operator="):
+        prm = [p for p in fn.params if "OpResult" in (p.get("type") or "")]
+        if not prm or "Tracked" not in (fn.raw.get("clsinst") or fn.display):
+            continue
+        ov = prm[0]["vid"]
+        kills = []
+        for p, e in fn.events():
+            if ((e.get("k") == "call" and e.get("dtorcall")) or e.get("k") == "pseudodtor") and ptr_base(e.get("obj") if e.get("k") == "call" else e.get("base")) == "this":
+                kills.append((p, e))
+            if e.get("k") == "call" and e.get("name") in ("emplace", "reset") and e.get("cls") == "dispenso::detail::OpResult" and base_key(e.get("obj")) == "this":
+                kills.append((p, e))
+        n += 1
+        def is_self_test(a):
+            a = strip_casts(a)
+            if not (isinstance(a, dict) and a.get("k") == "bin" and a.get("op") in ("==", "!=")):
+                return None
+            sides = [strip_casts(a.get("l")), strip_casts(a.get("r"))]
+            has_this = any(isinstance(x, dict) and x.get("k") == "this" for x in sides)
+            has_addr = any(isinstance(x, dict) and x.get("k") == "un" and x.get("op") == "&" and isinstance(strip_casts(x.get("e")), dict) and strip_casts(x.get("e")).get("vid") == ov for x in sides)
+            return a.get("op") if (has_this and has_addr) else None
+        bad = None
+        for p, e in kills:
+            guarded = False
+            for a, pol, _ in fn.guard_atoms(p):
+                op = is_self_test(a)
+                if op and ((op == "==" and not pol) or (op == "!=" and pol)):
+                    guarded = True
+            if not guarded:
+                bad = e
+        R.ob("C40.self-assign", fn, bad or fn.loc, bad is None and bool(kills), "the held object is only destroyed / replaced after `&oth != this`" if bad is None and kills else
+             "the held object can be destroyed (%s) when `oth` is *this: self-assignment of an engaged OpResult destroys the value and rebuilds it from dead storage" % ((bad or {}).get("name") or "destructor"),
+             sitekey="operator=:%s" % ("move" if "&&" in (prm[0].get("type") or "") else "copy"), why="optional semantics: self-assignment leaves the value untouched")
+    R.need("C40.self-assign", n, 2, "OpResult assignment operators")
